@@ -48,6 +48,16 @@ func c04Isolation(c *vlib.Ctx) {
 			switch {
 			case j < len(c04Lengths):
 				in, how = c04Input(r, c04Lengths[j]), fmt.Sprintf("length-%d", c04Lengths[j])
+			case j < len(c04Lengths)+40:
+				// prefixes of the first seeds of a type, one length after the other across the cases: a decoder that looks
+				// at bytes behind the input (spare capacity) shows when the input ends exactly in front of an optional part
+				t = cp.Types[(k*7+j)%len(cp.Types)]
+				if sd := cp.Seeds[t]; len(sd) > 0 {
+					seed := sd[(k/3)%min(len(sd), 3)]
+					in, how = seed[:(k*40+j)%(len(seed)+1)], "prefix"
+				} else {
+					in, how = cp.Input(r, t)
+				}
 			case r.Chance(1, 3):
 				in, how = c04Input(r, r.Range(1400, 1600)), "around-pool-block"
 			default:
@@ -96,7 +106,11 @@ func c04Isolation(c *vlib.Ctx) {
 			}
 			// (2) NoCopy and Pool change only where the bytes live
 			for _, o := range []gopacket.DecodeOptions{{DecodeStreamsAsDatagrams: dsad, Lazy: lazy, NoCopy: true}, {DecodeStreamsAsDatagrams: dsad, Lazy: lazy, Pool: true}, {DecodeStreamsAsDatagrams: dsad, Lazy: lazy, Pool: true, NoCopy: true}} {
-				s, pi := c02Sig(append([]byte{}, in...), t, o)
+				// an exact-capacity copy (append would round the capacity up to a size class): bytes behind the input
+				// that only one of the configurations can see must not decide the result
+				exact := make([]byte, len(in))
+				copy(exact, in)
+				s, pi := c02Sig(exact, t, o)
 				if pi != nil {
 					c.Violation("option-changes-result:panic@"+pi.Func, fmt.Sprintf("decoding with %s panics where the default options do not: %s", optString(o), pi.Value), det(o))
 					continue
